@@ -233,7 +233,35 @@ Proof.
          [1; 1; 1; 1; 2].
   vm_compute. repeat split; try reflexivity; eexists; eexists; split; reflexivity.
 Qed.
+
+(* KF-C06-4 (candidate): the context list is read UNLOCKED when the call starts (C06_entry_reads_configuration)
+   and never changes (C06_contexts_fixed).  If, while the thread waits for the machine contexts, another
+   thread re-registers the model with other contexts (remove_model + add_model), the event is processed under
+   the OLD list: inside the envelope, a state in which thread 1 processes an event on model 0 holding lock 3
+   while the contexts configured for model 0 in the current machine state are [5], and lock 5 is free
+   (probes/KF-C06-4.py).  So C06_contexts_held is about the list read at entry, not about the registration
+   in force during processing. *)
+Definition w3_reg (ms : nat) (m : nat) : option (list nat) :=
+  match m with 0 => if Nat.ltb ms 2 then Some [3] else Some [5] | _ => None end.
+
+Theorem C06_contexts_stale_refuted :
+  exists (cfg : lcfg) (progs : nat -> list call) (sched : list nat) (a : act (K:=nat) (R:=nat)) (k : nat),
+    wf_cfg cfg = true /\ cfg_hier cfg = false /\
+    let g := run w_start w_resume w_ret w3_reg cfg sched (init progs 0) in
+    g_bad g = false /\ t_cur (g_th g 1) = Some a /\ a_phase a = PRun k /\
+    holds g 1 (CLock 3) /\
+    In (CLock 5) (ctxs_spec w3_reg cfg (g_ms g) (a_call a)) /\ ~ holds g 1 (CLock 5).
+Proof.
+  exists (mkCfg [0] false),
+         (fun t => match t with 1 => [mkCall (KEvent 0) 2] | 2 => [mkCall KMethod 1] | _ => [] end),
+         [1; 2; 2; 2; 2; 2; 2; 2; 1; 1; 1],
+         (mkAct (mkCall (KEvent 0) 2) (PRun 2) [CLock 3; CIdent; CLock 0] [CLock 0; CIdent; CLock 3]), 2.
+  vm_compute. repeat split; try reflexivity.
+  - right. right. left. reflexivity.
+  - discriminate.
+Qed.
 Print Assumptions C06_example.
+Print Assumptions C06_contexts_stale_refuted.
 Print Assumptions C06_contexts_held_hier_refuted.
 Print Assumptions C06_contexts_held_nested_refuted.
 Print Assumptions C06_mutex_unregistered_refuted.
